@@ -352,6 +352,17 @@ example : reachPost (sharedGraph.entries.takeWhile (fun e => !e.postWrites (1, 0
 example : tracePost .iis (fun c => c.1 ≠ 2) (sharedGraph.entries.dropWhile (fun e => !e.postWrites (1, 0))) (1, 0) = some (.init (2, 0)) := by decide
 example : (runFrom sharedGraph ⟨fun _ => 0⟩ ⟨.pre, .generic, [(0, [5, 9])]⟩).map (fun S => readNode S 2 1) = some [9] := by decide
 example : (runFrom sharedGraph ⟨fun _ => 0⟩ ⟨.post, .iis, [(2, [4])]⟩).map (fun S => readNode S 0 2) = some [4, 4] := by decide
+/-! That EVERY user of a shared item is linked to it is a property of the converter, validated per run (certificates `sources` /
+    `reach` + oracle).  It FAILS on the unchanged tree for AMPL defined variables (`ProblemFlattener::VisitCommonExpr`, known finding
+    C04-common-expr-reuse-not-linked): the graph then has the shape below, and the model shows what is lost. -/
+
+/-- second user's link missing: `.funcpieces` 5/9 arrives as 5, and the IIS flag of the shared constraint does not reach the second user -/
+theorem C04_counterexample_shared_link_missing :
+    let g : Graph := { sharedGraph with entries := [.m2m ⟨0, 0, 1⟩ ⟨1, 0, 1⟩, .copy ⟨1, 0, 1⟩ ⟨2, 0, 1⟩] }
+    (runFrom g ⟨fun _ => 0⟩ ⟨.pre, .generic, [(0, [5, 9])]⟩).map (fun S => readNode S 2 1) = some [5] ∧
+    (runFrom g ⟨fun _ => 0⟩ ⟨.post, .iis, [(2, [4])]⟩).map (fun S => readNode S 0 2) = some [4, 0] := by
+  decide
+
 /-- the same model converted with the second user's link missing (seeded change C04-4): the value 9 and the IIS flag are lost -/
 example : (runFrom { sharedGraph with entries := [.m2m ⟨0, 0, 1⟩ ⟨1, 0, 1⟩, .copy ⟨1, 0, 1⟩ ⟨2, 0, 1⟩] } ⟨fun _ => 0⟩
     ⟨.pre, .generic, [(0, [5, 9])]⟩).map (fun S => readNode S 2 1) = some [5] := by decide
